@@ -89,7 +89,11 @@ def same_snapshot(a, b):
         return False
     if a[0] == "P":
         return a[1] == b[1]
-    return np.array_equal(a[1], b[1]) and a[2:] == b[2:]
+    try:
+        same = np.array_equal(a[1], b[1], equal_nan=True)
+    except TypeError:
+        same = np.array_equal(a[1], b[1])
+    return same and a[2:] == b[2:]
 
 
 def close(fr, x, tol):
@@ -198,6 +202,10 @@ def run_case(rec, k):
         conv = None
         if not o["raises"]:
             conv = cgs(ru) / cgs(lu) if sparse_dim_equal(lu, ru) else F(1)
+            if fam == "dtypes" and c["rdt"][0] == "i" and conv >= 100 and k % 2 == 1 and c["op"] not in ("mul", "div"):
+                # integers that fit their dtype but not once expressed in the left operand's unit (3e7 m = 3e9 cm)
+                rvals = [F(30000000), F(25000000)][:len(rvals)] if len(rvals) <= 2 else rvals
+                rarr = np.array([int(v) for v in rvals], dtype=rarr.dtype).reshape(rarr.shape)
             if o.get("conv"):
                 if rat(o["conv"]) != conv:
                     raise MachineryError(f"unit table disagrees with Units.tla on {ru}->{lu}: {conv} vs {rat(o['conv'])}")
@@ -209,6 +217,11 @@ def run_case(rec, k):
                 rvals = [v / conv * scale[i % 4] for i, v in enumerate(lb)]
                 rarr = np.array([float(v) for v in rvals], dtype=NPDT[c["rdt"]]).reshape(SHAPE[c["rs"]])
                 rvals = [F(float(v)) for v in rarr.ravel().tolist()]
+        nan_at0 = c["op"] in ("lt", "le", "gt", "ge", "eq", "ne") and c["ldt"][0] == "f" and k % 2 == 0 and (c["lu"] + (c.get("ru") or 0)) % 3 == 0 and c["ls"] == o.get("shape")
+        if nan_at0:
+            # an undefined value compares False with everything (True for !=), as in numpy
+            larr = larr.copy()
+            larr.flat[0] = np.nan
         a = A(larr, unit=UNITSTR[lu])
         rk = c["rk"]
         if rk == "arr":
@@ -243,6 +256,8 @@ def run_case(rec, k):
         exp = [exact_bin(c["op"], l, r * conv) for l, r in zip(lb, rb)]
         if c["op"] in ("lt", "le", "gt", "ge", "eq", "ne") and o.get("converted"):
             exp = [None if abs(l - r * conv) <= F(1, 10 ** 12) * max(abs(l), abs(r * conv)) else e for e, l, r in zip(exp, lb, rb)]
+        if nan_at0:
+            exp[0] = F(1) if c["op"] == "ne" else F(0)
         hint = "f" if (c["op"] == "div" or c["ldt"][0] == "f" or (rk != "int" and c["rdt"][0] == "f" and rk != "float") or rk == "float" or o.get("converted")) and not o.get("bool") else None
         d = check_result(res, o, exp, exp_shape, [c["ldt"], c["rdt"]], unit_tol(lu, ru) if o.get("converted") else 0.0, hint)
         # verdicts that sit within the tolerance of a unit's accepted value are not decided
@@ -357,6 +372,34 @@ def run_case(rec, k):
     if fam == "np":
         from . import arrays_np
         return arrays_np.run_np_case(rec, k)
+    if fam == "nphist":
+        vals = [F(4), F(9)] if k % 2 == 0 else [F(16), F(25)]
+        a = A(np.array([float(v) for v in vals]), unit=UNITSTR[lu])
+        fns = {"sqrt": np.sqrt, "square": np.square, "reciprocal": np.reciprocal}
+        try:
+            fns[c["f1"]](a)
+            if c["mut"] == "imul":
+                a *= a
+                now = [v * v for v in vals]
+            elif c["mut"] == "out":
+                np.multiply(a, a, out=a)
+                now = [v * v for v in vals]
+            elif c["mut"] == "idiv":
+                a /= a
+                now = [F(1) for v in vals]
+            else:
+                a.unit = osyris.units("kg**2")
+                now = list(vals)
+            res = fns[c["f2"]](a)
+        except Exception as e:
+            return "mismatch", f"history {c['f1']} / {c['mut']} / {c['f2']} raised {type(e).__name__}: {e}", {}
+        exact = {"sqrt": lambda v: None, "square": lambda v: v * v, "reciprocal": lambda v: 1 / v}[c["f2"]]
+        exp = [exact(v) for v in now]
+        if c["f2"] == "sqrt":
+            import math
+            exp = [F(math.isqrt(int(v))) if v.denominator == 1 and math.isqrt(int(v)) ** 2 == int(v) else F(float(v) ** 0.5) for v in now]
+        d = check_result(res, o, exp, (2,), ["f8"], 0.0, "f")
+        return ("mismatch", f"after {c['f1']}(a), then {c['mut']}: {c['f2']}(a): " + d, {}) if d else ("match", None, {})
     raise MachineryError("unknown family " + fam)
 
 
@@ -395,7 +438,7 @@ def emit_cases(rep, fams):
 def run_families(rep, tier, seed, fams, label, sample=None):
     global _RECS
     import osyris  # noqa
-    recs = [r for r in emit_cases(rep, fams) if r["c"]["fam"] in fams]
+    recs = [r for r in emit_cases(rep, fams) if r["c"]["fam"] in fams or (r["c"]["fam"] == "nphist" and "np" in fams)]
     rng = random.Random(seed + 31)
     if sample:
         keep = []
@@ -422,7 +465,7 @@ def run_families(rep, tier, seed, fams, label, sample=None):
                 if st == "error":
                     errors.append((c, detail))
                     continue
-                rep.case(klass=(c["fam"], c.get("op", c.get("f", "")), c["lu"], c.get("ru", 0), c.get("ldt"), c.get("rdt", ""), c.get("rk", ""), c.get("ls"), c.get("rs", "")))
+                rep.case(klass=(c["fam"], c.get("op", c.get("f", c.get("f1", "") + c.get("mut", "") + c.get("f2", ""))), c["lu"], c.get("ru", 0), c.get("ldt"), c.get("rdt", ""), c.get("rk", ""), c.get("ls"), c.get("rs", "")))
                 if st == "match":
                     rep.validated()
                     if k == 0:
